@@ -124,6 +124,37 @@ def build(src: str, name: str, site: dict, where: str) -> tuple[ast.FunctionDef,
     """synthetic `def <name>(<params>): return <site expression>` + the source text it came from"""
     tree = ast.parse(src)
     target, nth = site["target"], site.get("nth", 0)
+    if target == "body":
+        # the whole body of a (class) method: docstring and dtype normalisation (`x, y = _astensorsfloat(x, y)`,
+        # identity on float tensors) dropped, the rest handed to the statement translator
+        f = find_callables(tree, site.get("cls"), site["method"], site.get("nested"), where)[site.get("nth", 0)]
+        body = []
+        for st in f.body:
+            if isinstance(st, ast.Expr) and isinstance(st.value, ast.Constant) and isinstance(st.value.value, str):
+                continue
+            if (isinstance(st, ast.Assign) and isinstance(st.value, ast.Call)
+                    and ast.unparse(st.value.func) in site.get("drop_calls", ("_astensorsfloat", "astensors"))):
+                lhs = ast.unparse(st.targets[0]).replace(" ", "")
+                args = ",".join(ast.unparse(a) for a in st.value.args)
+                if lhs.strip("()") != args:
+                    raise SiteError(where, f"normalisation statement rebinds names differently: {ast.unparse(st)}")
+                continue
+            body.append(copy.deepcopy(st))
+        rn = _Rename(site.get("rename", {}))
+        body = [rn.visit(st) for st in body]
+        unused = set(site.get("rename", {})) - rn.used - set(site.get("optional_rename", []))
+        if unused:
+            raise SiteError(where, f"rename keys no longer present in the site: {sorted(unused)}")
+        margs = [a.arg for a in f.args.posonlyargs + f.args.args + f.args.kwonlyargs if a.arg not in ("cls", "self")]
+        missing = [a for a in margs if a not in site["params"]]
+        if missing:
+            raise SiteError(where, f"method parameters without a declared kind: {missing}")
+        args = ast.arguments(posonlyargs=[], args=[ast.arg(arg=p) for p in site["params"]], kwonlyargs=[],
+                             kw_defaults=[], defaults=[])
+        fd = ast.FunctionDef(name=name, args=args, body=body, decorator_list=[], type_params=[])
+        ast.copy_location(fd, f)
+        ast.fix_missing_locations(fd)
+        return fd, (ast.get_source_segment(src, f) or ast.unparse(f))
     found = []
     for f in find_callables(tree, site.get("cls"), site["method"], site.get("nested"), where):
         for s in _flatten(f.body):
@@ -155,16 +186,36 @@ def build(src: str, name: str, site: dict, where: str) -> tuple[ast.FunctionDef,
     return fd, seg
 
 
-def compile_site(fd: ast.FunctionDef):
-    """the synthetic function as a Python callable (translator validation executes it with torch)"""
+def compile_site(fd: ast.FunctionDef, env: dict | None = None, fn_params: tuple = ()):
+    """the synthetic function as a Python callable (translator validation executes it with torch).
+
+    `env` is shared by the sites of one module, so that a site calling a sibling site (`cls.cdf(…)`,
+    renamed to `Normal_cdf`) finds it.  Parameters that stand for opaque primitives (`erf`, `lgamma`, …
+    kinds fn / fn2) are removed from the signature and resolved as globals of `env`, which is how a
+    callee sees the primitive its caller was given."""
     import math
 
     import torch
-    mod = ast.Module(body=[copy.deepcopy(fd)], type_ignores=[])
+    if env is None:
+        env = {}
+    env.setdefault("torch", torch)
+    env.setdefault("math", math)
+    for k, v in {"dtype": torch.float64, "device": "cpu", "abs": abs, "max": max, "min": min, "bool": bool, "int": int,
+                 "sum": sum, "xlogy": torch.special.xlogy}.items():
+        env.setdefault(k, v)
+    fd2 = copy.deepcopy(fd)
+    fd2.args.args = [a for a in fd2.args.args if a.arg not in fn_params]
+    mod = ast.Module(body=[fd2], type_ignores=[])
     ast.fix_missing_locations(mod)
-    env = {"torch": torch, "math": math, "dtype": torch.float64, "device": "cpu", "abs": abs, "max": max, "min": min, "bool": bool, "int": int, "sum": sum}
     exec(compile(mod, "<site>", "exec"), env)  # noqa: S102 - the code is /repo's own expression
-    return env[fd.name]
+    inner = env[fd.name]
+
+    def call(**kwargs):
+        for p in fn_params:
+            if p in kwargs:
+                env[p] = kwargs.pop(p)
+        return inner(**kwargs)
+    return call
 
 
 # ---------------------------------------------------------------------------------------------
